@@ -639,7 +639,7 @@ class Ref(object):
                 raise UNSPECIFIED("power overflows")
             if tc == "d" and isinstance(y, complex):
                 raise UNSPECIFIED("negative base with fractional exponent in a real matrix")
-            if tc == "z" and xx == 0 and ee != 0 and ee.real <= 0:
+            if tc == "z" and xx == 0 and ee.real <= 0:
                 raise UNSPECIFIED("complex zero to a non-positive power")
             out.append(y)
         r = Ref(tc, self.m, self.n, out, False)
@@ -1070,6 +1070,8 @@ def _bext(A, f):
     vals = A.stored()
     if not vals:
         raise RAISES(E_TYPE | E_INDEX, "max/min of a matrix without elements")
+    if any(x != x for x in vals):
+        raise UNSPECIFIED("nan input")
     return f(vals)
 
 
@@ -1090,6 +1092,8 @@ def _elementwise(name, A, freal, fcomplex, domain_real=None, domain_complex=None
     if A.sp:
         raise UNSPECIFIED("%s of a sparse matrix" % name)
     out = []
+    if any(x != x for x in A.v):
+        raise UNSPECIFIED("nan input")
     if A.tc == "z":
         for x in A.v:
             if domain_complex is not None and not domain_complex(x):
@@ -1243,6 +1247,8 @@ def _emaxmin(args, name, f):
     for a in args:
         if (a.tc if isinstance(a, Ref) else num_tc(a)) == "z":
             raise UNSPECIFIED("%s with complex arguments" % name)
+        if any(x != x for x in (a.v if isinstance(a, Ref) else [a])):
+            raise UNSPECIFIED("nan input")
     if len(args) == 1:
         a = args[0]
         if not isinstance(a, Ref):
@@ -1762,8 +1768,8 @@ class Lockstep(object):
             if bad2 is None:
                 bad, worst = None, worst2
                 self.ctx.count("unspec.alternative-convention-taken")
-        if r.scale is not None and worst < float("inf"):
-            self.ctx.maxobs("relerr." + self.prefix, worst)
+        if bad is None and r.scale is not None and worst < float("inf"):
+            self.ctx.maxobs("relerr." + self.prefix, worst)     # calibration: passing comparisons only
         if bad is not None:
             kk, g, w, rel = bad
             self.fail("%s:value" % label,
